@@ -37,7 +37,7 @@ def ring(N : int, defect : float, open :bool = False, n_cover:int = 1) -> Surfac
         nxt = i+1 if open else (i+1)%(N*n_cover+1)
         ring.faces.append((0, i, nxt))
     if open:
-        ring.vertices.append(ring.vertices[1])
+        ring.vertices.append(Vec(ring.vertices[1].copy())) # a distinct vector: the same object was stored under two vertex ids
         ring.faces.append((0, N*n_cover, N*n_cover+1))
     else:
         ring.faces.append((0, N*n_cover, 1))
